@@ -27,6 +27,9 @@ def populated(label, thunk, rng):
         for i, op in enumerate(ops):
             clk.t = clock_tuple(i)
             ir.op(op)
+        # a file over several clusters: the target of the rejected open('w') / truncate below
+        for op in (["open", "pm", "/MULTI.BIN", "w"], ["write", "pm", "6d" * 5000], ["hclose", "pm"]):
+            ir.op(op)
         for h in list(ir.handles):
             ir.op(["hclose", h])
         ir.op(["closefs"])
@@ -53,7 +56,8 @@ MUT = lambda paths, rng: [  # noqa
     ["removetree", rng.choice(paths["d"] or ["/x"])], ["create", rng.choice(paths["f"] or ["/x"]), 1],
     ["setinfo", rng.choice(paths["f"] or ["/x"]), 1704067200, 1704067300, None, (2024, 1, 1, 0, 0, 0), (2024, 1, 1, 0, 1, 40), None],
     ["open", "m1", rng.choice(paths["f"] or ["/x"]), "w"], ["open", "m2", rng.choice(paths["f"] or ["/x"]), "a"], ["open", "m3", "/brandnew.bin", "x"],
-    ["open", "m4", rng.choice(paths["f"] or ["/x"]), "r+"], ["write", "m4", "41424344"], ["truncate", "m4", 0], ["hclose", "m4"]]
+    ["open", "m4", rng.choice(paths["f"] or ["/x"]), "r+"], ["write", "m4", "41424344"], ["truncate", "m4", 0], ["hclose", "m4"],
+    ["open", "m5", "/MULTI.BIN", "w"], ["open", "m6", "/MULTI.BIN", "r+"], ["truncate", "m6", 700], ["truncate", "m6", 9000], ["write", "m6", "4d" * 3000], ["hclose", "m6"]]
 
 
 def run(ctx):
@@ -74,6 +78,9 @@ def run(ctx):
             reads = [["listdir", "/"]] + [["listdir", d] for d in paths["d"][:3]] + [["getinfo", p] for p in (paths["f"] + paths["d"])[:4]] + \
                     [["exists", "/nope"], ["getsize", rng.choice(paths["f"] or ["/nope"])], ["open", "r1", rng.choice(paths["f"] or ["/nope"]), "r"],
                      ["read", "r1", -1], ["seek", "r1", 0, 0], ["read", "r1", 10], ["hclose", "r1"]]
+            for fi, p in enumerate((["/MULTI.BIN"] if "/MULTI.BIN" in paths["f"] else []) + [q for q in paths["f"] if q != "/MULTI.BIN"][:5]):   # every byte of some files
+                reads = [["open", f"a{fi}", p, "r"], ["read", f"a{fi}", -1], ["hclose", f"a{fi}"]] + reads if fi == 0 else \
+                    reads + [["open", f"a{fi}", p, "r"], ["read", f"a{fi}", -1], ["hclose", f"a{fi}"]]
             muts = MUT(paths, rng)
             ops = []
             for k in range(max(len(muts), len(reads))):
@@ -98,13 +105,14 @@ def run(ctx):
                         rejected[0] += 1
                         if str(ires[1]).startswith("INTERNAL"):
                             ctx.violation(f"{label}/{how}: {op[:2]} rejected with internal exception {ires[1]}", f"ro-internal:{op[0]}", dict(rep, at=k))
-                elif op[0] in ("listdir", "getinfo", "exists", "getsize", "read") and ires[0] == "ok":
+                elif op[0] in ("listdir", "getinfo", "exists", "getsize", "read") and (ires[0] == "ok" or str(op) in read_results) \
+                        and not (op[0] == "read" and op[1].startswith("m")):
                     key = str(op)
-                    v = core.canon(ires[1])
+                    v = core.canon(list(ires))          # an answer that turns into an error is a changed answer
                     if key in read_results and read_results[key] != v:
-                        ctx.violation(f"{label}/{how}: read {op[:2]} changed its answer after rejected mutations", f"ro-read-changed:{op[0]}", dict(rep, at=k))
+                        ctx.violation(f"{label}/{how}: read {op[:2]} changed its answer after rejected mutations: {str(v)[:80]}", f"ro-read-changed:{op[0]}", dict(rep, at=k))
                     read_results.setdefault(key, v)
-                elif op[0] in ("listdir", "getinfo", "exists", "getsize", "read") and str(ires[1]).startswith("INTERNAL"):
+                if op[0] in ("listdir", "getinfo", "exists", "getsize", "read") and str(ires[1]).startswith("INTERNAL"):
                     ctx.violation(f"{label}/{how}: read {op[:2]} raised {ires[1]}", f"ro-read-internal:{op[0]}", dict(rep, at=k))
             r = tie.run_program(img, ops, mount=dict(read_only=True), model=m, on_step=on_step)
             ctx.traces += 1
